@@ -252,9 +252,37 @@ def umbrella(job):
     return out
 
 
+def action_text(path):
+    """the definitions of the linker's actions in a module, normalised (LinkerInd writes Def(clash, m) for Defs(clash)[m])"""
+    import re
+    text = open(path).read()
+    out = {}
+    for name in ("Take(m)", "HostAdd", "StartLink", "LoadImport(m)", "Finish", "Next"):
+        m = re.search(r"^" + re.escape(name) + r" ==(.*?)(?=^\S)", text, re.S | re.M)
+        if not m:
+            raise common.Machinery(f"{path}: no definition of {name}")
+        out[name] = re.sub(r"\s+", " ", re.sub(r"Defs\(clash\)\[(\w+)\]", r"Def(clash, \1)", m.group(1))).strip()
+    return out
+
+
+def apalache_step(ctx):
+    """thorough tier: the inductive invariant of spec/LinkerInd.tla (N = 6, every DAG / order / state) discharged by Apalache"""
+    scratch = str(ctx.scratch / "apalache_linker")
+    r = subprocess.run([os.path.join(os.path.dirname(os.path.dirname(os.path.abspath(__file__))), "tools", "apalache_linker.sh"), scratch],
+                       capture_output=True, text=True, timeout=4000)
+    lines = [l for l in r.stdout.splitlines() if l.strip()]
+    if r.returncode == 1:
+        raise common.Machinery("LinkerInd: Apalache / TLC found a counterexample to the inductive invariant (a problem of the specification, not of the code):\n" + "\n".join(lines))
+    return {"exit": r.returncode, "steps": lines}
+
+
 def run(ctx, args):
     quick = ctx.tier == "quick"
     n = 3 if quick else 4
+    spec_dir = os.path.join(os.path.dirname(os.path.dirname(os.path.abspath(__file__))), "spec")
+    if action_text(os.path.join(spec_dir, "Linker.tla")) != action_text(os.path.join(spec_dir, "LinkerInd.tla")):
+        raise common.Machinery("spec/Linker.tla and spec/LinkerInd.tla define different actions")
+    apalache = None if quick else apalache_step(ctx)
     cfg = f"CONSTANTS N = {n} WithClash = TRUE RootOnly = FALSE\nSPECIFICATION FairSpec\nPROPERTY Terminates\nINVARIANT LoadedOnce\nINVARIANT OrderIndependent\nINVARIANT ClashRejected\nINVARIANT Report\nCHECK_DEADLOCK FALSE\n"
     res = ctx.tlc("Linker", cfg, timeout=3000)
     records = list(res.records)
@@ -322,4 +350,5 @@ def run(ctx, args):
         exhaustive=True, traces_validated=counts.get("ok-linked", 0) + counts.get("ok-rejected", 0),
         assumptions=["not judged: the host adds a module that another added module also imports (the linker cannot know that an object it was given is the module of that name)",
                      "imported modules have no global variables", "rejection = any exception from AddModule / Link, or a module that does not compile"],
-        extra={"outcome_counts": counts})
+        extra={"outcome_counts": counts, "apalache_inductive_invariant": apalache if apalache is not None else
+               "thorough tier only: tools/apalache_linker.sh discharges IndInv of spec/LinkerInd.tla for N = 6 (Init => IndInv, IndInv /\\ Next => IndInv', IndInv => the three invariants)"})
